@@ -461,6 +461,8 @@ class Document(metaclass=DocumentMeta):
                 )
 
         current_root = getattr(self, "__root_node__", None)
+        if current_root is node:
+            return
         if current_root is not None:
             _copy_root_siblings(current_root._etree_obj, node._etree_obj)
             current_root.__document__ = None
